@@ -1027,6 +1027,7 @@ class SpecArray(object):
             dask="parallelized",
             vectorize=True,
             output_dtypes=["float32", "float32", "float32"],
+            dask_gufunc_kwargs={"allow_rechunk": True},
         )
         dsout = xr.Dataset()
         if spectra:
@@ -1073,6 +1074,7 @@ class SpecArray(object):
             dask="parallelized",
             vectorize=True,
             output_dtypes=["float32", "float32", "float32"],
+            dask_gufunc_kwargs={"allow_rechunk": True},
         )
         dsout = xr.Dataset()
         if spectra:
